@@ -589,6 +589,18 @@ func (vc *FuncVC) loopInvs(li *loopInfo) []invFn {
 			return T(fmt.Sprintf("(forall ((r Int)) (! (=> (select %s r) (select %s r)) :pattern ((select %s r))))", a0.S, a.S, a.S), SBool)
 		}, nil})
 	}
+	if vc.C != nil && len(vc.C.Stable) > 0 && li.havoc {
+		// what the contract assumes stable across opaque calls is also stable across the loop
+		for _, d := range vc.C.Stable {
+			d := d
+			if strings.HasPrefix(d, "now:") {
+				continue
+			}
+			out = append(out, invFn{"auto.stable." + d, "stable: " + d + " as at entry", func(env *Env) Term {
+				return vc.stableFormula(d, env.st)
+			}, nil})
+		}
+	}
 	if vc.C != nil && vc.C.HasAssgn {
 		for _, comp := range sortedKeys(li.modset) {
 			comp := comp
